@@ -29,6 +29,43 @@ Proof. destruct c; cbn; [discriminate|reflexivity]. Qed.
 Lemma app_nil_l2 {A} (l1 l2 : list A) : l1 ++ l2 = [] -> l1 = [] /\ l2 = [].
 Proof. destruct l1; cbn; [auto|discriminate]. Qed.
 
+Lemma aget_In {A} (m : amap A) k v : aget m k = Some v -> In (k, v) m.
+Proof.
+  induction m as [|[k' v'] m IH]; cbn [aget]; [discriminate|].
+  destruct (Z.eqb_spec k' k); [intros E; inversion E; subst; left; reflexivity|intros H; right; auto].
+Qed.
+
+Lemma In_adel {A} (m : amap A) k x : In x (map fst (adel m k)) -> x <> k /\ In x (map fst m).
+Proof.
+  induction m as [|[k' v'] m IH]; cbn [adel map]; [intros []|].
+  destruct (Z.eqb_spec k' k).
+  - intros H. destruct (IH H). split; [assumption|right; assumption].
+  - cbn [map In fst]. intros [H|H]; [subst; split; [assumption|left; reflexivity]|destruct (IH H); split; [assumption|right; assumption]].
+Qed.
+
+Lemma NoDup_adel {A} (m : amap A) k : NoDup (map fst m) -> NoDup (map fst (adel m k)).
+Proof.
+  induction m as [|[k' v'] m IH]; cbn [adel map]; [auto|].
+  intros H. inversion H as [|x l Hn Hd]. subst.
+  destruct (Z.eqb_spec k' k); [auto|].
+  cbn [map fst]. constructor; [|auto]. intros Hin. apply In_adel in Hin. cbn [fst] in Hn. tauto.
+Qed.
+
+Lemma NoDup_aset {A} (m : amap A) k v : NoDup (map fst m) -> NoDup (map fst (aset m k v)).
+Proof.
+  intros H. unfold aset. cbn [map fst]. constructor; [|apply NoDup_adel; exact H].
+  intros Hin. apply In_adel in Hin. tauto.
+Qed.
+
+Lemma In_aget {A} (m : amap A) k v : NoDup (map fst m) -> In (k, v) m -> aget m k = Some v.
+Proof.
+  induction m as [|[k' v'] m IH]; cbn [aget map]; [intros _ []|].
+  intros H [E|Hin]; inversion H as [|x l Hn Hd]; subst.
+  - inversion E. subst. rewrite Z.eqb_refl. reflexivity.
+  - destruct (Z.eqb_spec k' k) as [->|Hne]; [|auto].
+    exfalso. apply Hn. cbn [fst]. apply (in_map fst) in Hin. exact Hin.
+Qed.
+
 
 #[global] Arguments aget : simpl never.
 #[global] Arguments aset : simpl never.
